@@ -112,8 +112,13 @@ def gen_a(rng, tier):
         pr = {"s": sp, "m": m}
         if rng.random() < 0.1:
             pr["cwd"] = "$W/" + rng.choice(dirs)
-        if rng.random() < 0.06:
+        c = rng.random()
+        if c < 0.06:
             pr["via"] = "parser"
+        elif c < 0.10:
+            pr["via"] = "pathlib"  # given as os.PathLike
+        elif c < 0.14:
+            pr["via"] = "copy"  # Path(Path(spelling, <weak mode>), mode): flags are re-checked for the same path
         probes.append(pr)
     w = {"dirs": dirs, "files": files, "symlinks": symlinks, "fifos": fifos, "dirmodes": dirmodes, "cwd": cwd, "env": {}}
     return {"part": "a", "world": w, "probes": probes, "faults": [], "tier": tier}
@@ -187,6 +192,28 @@ def gen_b(rng, tier):
                 inner["deep"] = _spell(rng, D2 + "/deep.yaml", D1)
                 metas["inner.deep"] = D2 + "/deep.yaml"
                 refs.append(("cfg", D2 + "/deep.yaml", 2, "inner"))
+        if rng.random() < 0.35:
+            # a list-of-paths file referenced from inside the inner sub-config
+            D5 = rng.choice(["lists", "A", "data/deep"])
+            items = []
+            for i in range(rng.randint(1, 2)):
+                t = data_file()
+                sp = _spell(rng, t, D5)
+                items.append(sp)
+                expected["inner.lst[%d]" % i] = [sp, D5]
+                refs.append(("data", t, 2, "inner"))
+            files[D5 + "/ilist.txt"] = "\n".join(items) + "\n"
+            inner["lst"] = _spell(rng, D5 + "/ilist.txt", D1)
+            refs.append(("cfg", D5 + "/ilist.txt", 2, "inner"))
+        if rng.random() < 0.35:
+            # a class spec file referenced from inside the inner sub-config
+            D6 = rng.choice(["cfgs", "A/B", "data"])
+            ia = {}
+            leaf("inner.obj.init_args.data", D6, ia, "data", 2)
+            files[D6 + "/iobj.yaml"] = json.dumps({"class_path": "dsim.simtypes.WithPath", "init_args": ia})
+            inner["obj"] = _spell(rng, D6 + "/iobj.yaml", D1)
+            metas["inner.obj"] = D6 + "/iobj.yaml"
+            refs.append(("cfg", D6 + "/iobj.yaml", 2, "inner"))
         if inline:
             main["inner"] = inner
         else:
@@ -420,7 +447,17 @@ def exec_a(sc, ctx):
             pobj = o.value.x if o.kind == "ret" else None
         else:
             kw = {"cwd": pr["cwd"]} if "cwd" in pr else {}
-            o = run_op(lambda: Path(sp, m, **kw))
+            arg = sp
+            if pr.get("via") == "pathlib" and sp not in ("-",) and not sp.startswith("~"):
+                import pathlib
+
+                if str(pathlib.PurePosixPath(sp)) == sp:  # pathlib normalises './x', 'x/': only spellings it keeps
+                    arg = pathlib.PurePosixPath(sp)
+            elif pr.get("via") == "copy" and sp != "-":
+                o0 = run_op(lambda: Path(sp, "", **kw))
+                if o0.kind == "ret":
+                    arg, kw = o0.value, {}
+            o = run_op(lambda: Path(arg, m, **kw))
             if o.kind == "ret":
                 got, pobj = True, o.value
             elif o.kind == "exc" and isinstance(o.exc, PathError):
@@ -497,6 +534,10 @@ def _relevant(sp, m, cwd, home, kw):
 def b_parser(b):
     deep = {"opts": {"exit_on_error": b["opts"]["exit_on_error"]}, "args": [{"k": "arg", "name": "r", "type": "opt_path_fr", "default": None}]}
     inner = {"opts": {"exit_on_error": b["opts"]["exit_on_error"]}, "args": [{"k": "arg", "name": "q", "type": "opt_path_fr", "default": None}, {"k": "inner", "name": "deep", "spec": deep}]}
+    inner["args"] += [
+        {"k": "arg", "name": "lst", "type": "list_path_fr", "default": [], "enable_path": True},
+        {"k": "arg", "name": "obj", "type": "opt_withpath", "default": None, "enable_path": True},
+    ]
     args = [
         {"k": "cfg"},
         {"k": "arg", "name": "p", "type": "opt_path_fr", "default": None},
